@@ -18,6 +18,10 @@ fn main() {
         checks::c20::worker(args.get(2).map(|s| s.as_str()).unwrap_or(""));
         return;
     }
+    if args.get(1).map(|s| s.as_str()) == Some("c20names") {
+        checks::c20::names_worker(args.get(2).and_then(|s| s.parse().ok()).unwrap_or(0), args.get(3).and_then(|s| s.parse().ok()).unwrap_or(1));
+        return;
+    }
     if args.get(1).map(|s| s.as_str()) == Some("r7dump") {
         checks::c15::r7dump(args.get(2).map(|s| s.as_str()).unwrap_or("/dev/stdout"));
         return;
